@@ -1,0 +1,8 @@
+//go:build verif
+
+package proxy
+
+// VerifInit runs the proxy's pre-start initialization (server registration from
+// config, builtin commands, plugin channels) without binding a listener, so the
+// verification rig can drive HandleConn on its own listener.
+func (p *Proxy) VerifInit() error { return p.init() }
